@@ -79,3 +79,127 @@ Print Assumptions C05_same_step_invisible.
 Print Assumptions C05_run_delay.
 Print Assumptions C05_forced_value.
 Print Assumptions C05_forced_shift.
+
+
+(* ================================================================================================================
+   The same property on the LOW-LEVEL model (model/ProxySem.v), where nothing is frozen by construction: nodes carry a
+   `_state_proxy` and receivers a clamp, loaded / consumed / restored / cleaned in the order model.py, node.py and
+   _base.py do it.  proofs/Refine_proofs.v proves that this mechanism implements ModelSem (IronFleet-style layering),
+   which makes the one-step delay a theorem about proxy management. *)
+From RV Require Import model.ProxySem proofs.Refine_proofs.
+
+Section C05_lowlevel.
+Context {F : Type} `{Num F}.
+Notation vec := (list F).
+Notation env := (@env F).
+Notation lenv := (@lenv F).
+Notation model := (@model F).
+Notation ndesc := (@ndesc F).
+
+(* REFINEMENT.  For a model whose node ids are distinct, from any state at rest (no proxy, no clamp anywhere),
+   Model.run as the code performs it (with_state; _load_proxys(keep=True); per step with_feedback{forward} then
+   _load_proxys(); finally _clean_proxys) returns the outputs, the success flag and - once proxies and clamps are
+   forgotten - the final environment of ModelSem.run_op, for every combination of stateful / reset / from_state,
+   every forced-feedback sequence and every family of forward functions, failing ones included; and it ends at rest. *)
+Theorem C05_lowlevel_refines (m : model) stateful reset from steps (el : lenv) :
+  NoDup (ids_of m) -> at_rest el ->
+  let '(el', outs_l, ok_l) := run_op_ll m stateful reset from steps el in
+  let '(e', outs, ok) := run_op m stateful reset from steps (abs el) in
+  outs_l = outs /\ ok_l = ok /\ (forall n, abs el' n = e' n) /\ at_rest el'.
+Proof. exact (run_op_ll_refines m stateful reset from steps el). Qed.
+
+(* Model.call (no reload after the step, with_feedback inherits [stateful]) is the one-step run *)
+Theorem C05_lowlevel_call_refines (m : model) stateful reset from ext forced (el : lenv) (e : env) :
+  NoDup (ids_of m) -> at_rest el -> R el e ->
+  let '(el', outs_l, ok_l) := call_op_ll m stateful reset from ext forced el in
+  let '(e', outs, ok) := run_op m stateful reset from [(ext, forced)] e in
+  outs_l = outs /\ ok_l = ok /\ R el' e' /\ at_rest el'.
+Proof. exact (call_op_ll_sim m stateful reset from ext forced el e). Qed.
+
+(* INVARIANT.  A freshly built environment is at rest, and run / call / reset re-establish it - whether or not a
+   forward function raised part-way (the statement is for every nfwd and does not look at the success flag). *)
+Theorem C05_lowlevel_at_rest (m : model) (e0 : env) (el : lenv) :
+  at_rest (inject e0) /\
+  (NoDup (ids_of m) -> at_rest el ->
+   (forall stateful reset from steps, at_rest (fst (fst (run_op_ll m stateful reset from steps el)))) /\
+   (forall stateful reset from ext forced, at_rest (fst (fst (call_op_ll m stateful reset from ext forced el)))) /\
+   at_rest (reset_op_ll m el)).
+Proof. split; [exact (inject_at_rest e0)|exact (at_rest_invariant m el)]. Qed.
+
+(* DELAY, as a fact about the mechanism.  Inside Model._run started from rest, let the first k steps have succeeded
+   and let elk be the environment then.  In step k (taken without forced feedback), when receiver d is reached -
+   after the prefix [pre] of the execution order has run and has possibly ALREADY overwritten the sender's `_state` -
+   the DistantFeedback read returns the sender's state as it was at the end of step k-1; and that is the state
+   ModelSem.env_after assigns to the sender (so C05_run_delay above speaks about the same value). *)
+Theorem C05_lowlevel_run_delay (m : model) (d : ndesc) s pre suf steps (el0 : lenv) k ext (elmid : lenv) okmid :
+  NoDup (ids_of m) -> at_rest el0 ->
+  order m = pre ++ d :: suf -> nfb d = Some (FbNode s) ->
+  lsteps_ok m steps (load_proxys m true el0) k = true ->
+  let elk := lenv_after m steps (load_proxys m true el0) k in
+  forward_from_ll m ext pre (fb_enter_all (fun _ => None) (order m) elk) = (elmid, okmid) ->
+  fst (fb_read d elmid) = Some (lst (elk s)) /\
+  lst (elk s) = st (env_after m steps (abs el0) k s).
+Proof. exact (run_feedback_delay_ll m d s pre suf steps el0 k ext elmid okmid). Qed.
+
+(* the local fact behind it: forward never writes a proxy and only consumes clamps, so whatever proxy the sender
+   holds when the step begins is what an unclamped receiver reads, however much of the step has already run *)
+Theorem C05_lowlevel_read_frozen (m : model) ext pre (d : ndesc) s (elin elmid : lenv) ok v :
+  nfb d = Some (FbNode s) -> clamp (elin (nid d)) = None ->
+  (proxy (elin s) = Some v \/ (proxy (elin s) = None /\ lst (elin s) = v /\ ~ In s (map nid pre))) ->
+  forward_from_ll m ext pre elin = (elmid, ok) ->
+  fst (fb_read d elmid) = Some v.
+Proof. exact (fb_read_frozen m ext pre d s elin elmid ok v). Qed.
+End C05_lowlevel.
+
+(* Non-vacuity on the loop of C05_example: same outputs through the mechanism, which ends at rest ... *)
+Definition ex5_steps (fb : nat -> option (list Q)) :=
+  map (fun x => ((fun n => match n with 0 => Some [x] | _ => None end), fb)) [1%Q; 2%Q; 3%Q].
+Definition ex5_lenv : @lenv Q := inject ex5_env.
+Example C05_lowlevel_example :
+  (let '(el, outs, ok) := run_op_ll ex5_model true false (fun _ => None) (ex5_steps (fun _ => None)) ex5_lenv in
+   (ok, outs, map (fun n => (proxy (el n), clamp (el n))) [0; 1])) =
+  (true, [[[2%Q]]; [[204%Q]]; [[406%Q]]], [(None, None); (None, None)]).
+Proof. vm_compute. reflexivity. Qed.
+(* ... and a value forced under the SENDER's name (node 0, which is not a receiver, and is also the receiver's parent):
+   node 0 gets a temporary proxy 9, the receiver is clamped with 9 through its sender's name and adds 100 x 9, while its
+   input is still node 0's current state 2x - DataDispatcher.get reads `state()`, never the proxy.  No side condition
+   is needed for this case: ModelSem's [proxies] only feeds [fbvalue], exactly like the temporary proxy. *)
+Example C05_lowlevel_forced_by_sender_example :
+  let fb := fun n : nat => match n with 0 => Some [9%Q] | _ => None end in
+  (let '(_, outs, ok) := run_op_ll ex5_model true false (fun _ => None) (ex5_steps fb) ex5_lenv in (ok, outs)) =
+  (true, [[[902%Q]]; [[904%Q]]; [[906%Q]]]) /\
+  (let '(_, outs, ok) := run_steps ex5_model (ex5_steps fb) ex5_env in (ok, outs)) = (true, [[[902%Q]]; [[904%Q]]; [[906%Q]]]).
+Proof. vm_compute. split; reflexivity. Qed.
+
+(* SIDE CONDITION 1 is needed: at rest.  `_load_proxys(keep=True)` keeps a proxy that is already there, so from a state
+   where the sender still holds a stale proxy [7] the first step of the run reads 7 where ModelSem reads the state 0. *)
+Theorem C05_lowlevel_needs_at_rest_refuted :
+  exists el : @lenv Q, ~ at_rest el /\
+    (let '(_, outs_l, _) := run_op_ll ex5_model true false (fun _ => None) (ex5_steps (fun _ => None)) el in
+     let '(_, outs, _) := run_op ex5_model true false (fun _ => None) (ex5_steps (fun _ => None)) (abs el) in
+     outs_l <> outs).
+Proof.
+  exists (fun n => match n with 0 => mkLN [0%Q] [] (Some [7%Q]) None | _ => mkLN [0%Q] [] None None end).
+  split; [intros Hr; destruct (Hr 0) as [Hp _]; discriminate|vm_compute; discriminate].
+Qed.
+(* SIDE CONDITION 2 is needed: distinct node ids.  A clamp is consumed by the first read (`self._clamped = False`), so if
+   the same receiver occurred twice in the execution order its second call would read the sender's proxy, whereas
+   ModelSem hands the forced value to both.  (reservoirpy models cannot contain a node twice.) *)
+Theorem C05_lowlevel_needs_nodup_refuted :
+  let m := mkModel (ex5_nodes ++ [nth 1 ex5_nodes (mkND 0 (kfwd KId) None 0)]) (fun n => match n with 1 => [0] | _ => [] end) [1] in
+  let fb := fun n : nat => match n with 1 => Some [5%Q] | _ => None end in
+  ~ NoDup (ids_of m) /\
+  (let '(_, outs_l, _) := run_op_ll m true false (fun _ => None) (ex5_steps fb) ex5_lenv in
+   let '(_, outs, _) := run_op m true false (fun _ => None) (ex5_steps fb) (abs ex5_lenv) in
+   outs_l <> outs).
+Proof.
+  split; [intros Hn; inversion Hn as [|? ? _ Hn']; inversion Hn' as [|? ? Hin _]; apply Hin; left; reflexivity|vm_compute; discriminate].
+Qed.
+
+Print Assumptions C05_lowlevel_refines.
+Print Assumptions C05_lowlevel_call_refines.
+Print Assumptions C05_lowlevel_at_rest.
+Print Assumptions C05_lowlevel_run_delay.
+Print Assumptions C05_lowlevel_read_frozen.
+Print Assumptions C05_lowlevel_needs_at_rest_refuted.
+Print Assumptions C05_lowlevel_needs_nodup_refuted.
